@@ -91,6 +91,7 @@ pub fn f1x_exotic(rng: &mut Rng, name: &str) -> Def {
         "[\\p{Greek}--\\p{Lu}]", "\\pN", "\\p{sc=Greek}", "\\p{Script=Cyrillic}", "[[a-c][x-z]]", "[^\\p{L}\\p{N}\\s]", "[\\x41-\\x5A]",
         "[\\u00E0-\\u00FF]", "[a-c[:digit:]]", "[\\x{1F600}-\\x{1F64F}]", "[^[:^alpha:]]", "[\\w--\\d]", "[\\w&&[^_]]", "[-a]", "[a-]", "[]a]", "[^]a]",
         "[\\^a]", "[a\\-c]", "[&&a]", "[\\p{Lu}&&\\p{Greek}]", "[\\P{L}&&\\p{ASCII}]", "[\\s--\\n]", "\\p{Nd}", "[\\pL&&[^\\p{Ll}]]",
+        "[\\x00-\\x08\\x0E-\\x1F\\x7F]", "[!#%\\x7F]", "[\\x7E\\x7F]", "[^\\x00-\\x7E]", "[[:cntrl:]]", "[^\u{e9}\u{20ac} ]", "[^\\p{Greek}a]",
     ];
     const LITS: &[&str] = &[
         "\\x41", "\\x{41}", "\\u0041", "\\u{e9}", "\\U0001F600", "\\x{1F600}", "\\a", "\\f", "\\v", "\\t", "\\x7F", "\\x00", "\\u00DF", "\\u{212A}",
@@ -501,8 +502,10 @@ pub fn f6_loops(rng: &mut Rng, name: &str) -> Def {
         // state in the middle of a token
         def.family = "F6-rootloop".into();
         let star = rng.pick_str(&["(ab)*", "a*", "[a-c]*", "(x|yz)*", "(a|b)*", "[0-9]*", "(é)*", "(a|bc)*", "([0-9]|x[a-f])*", "(a|b|cd)*", "([a-c]|xyz)*"]);
-        let tails = ["c", "d", "xy", "[q-t]", "0", "zz?", "[k-m]+"];
-        let n = rng.range(1, 3);
+        // tails that begin with a letter of the starred group put accepting states and wide forks (jump tables)
+        // *on* the cycle through the start state
+        let tails = ["c", "d", "xy", "[q-t]", "0", "zz?", "[k-m]+", "a", "ad", "ae", "af[0-9]", "ag+", "b!", "a$"];
+        let n = rng.range(1, 5);
         let mut used: Vec<&str> = vec![];
         for _ in 0..n {
             let t = *rng.pick(&tails);
@@ -643,7 +646,7 @@ pub fn f10_subpat(rng: &mut Rng, name: &str) -> Def {
         def.family = "F10-greedy".into();
     } else if rng.chance(1, 10) {
         // undefined reference: must be rejected
-        def.push(Pat::regex("(?&nope)x", 0));
+        push_undefined_reference(rng, &mut def);
         def.family = "F10-undef".into();
     } else if rng.chance(1, 12) && def.subpats.len() >= 2 {
         // forward reference between subpatterns: must be rejected
@@ -657,6 +660,55 @@ pub fn f10_subpat(rng: &mut Rng, name: &str) -> Def {
     assign_priorities(rng, &mut def);
     def.normalize();
     def
+}
+
+/// An undefined subpattern reference in every position a pattern can stand in (regex, skip, skip with
+/// named arguments, the body of another subpattern), at the start / middle / end of the pattern, quantified,
+/// in str and byte-string literals, under a name never defined or a near miss of a defined one. The
+/// definition is otherwise acceptable (a plain token is always present), so it must be rejected for the
+/// reference alone.
+pub fn push_undefined_reference(rng: &mut Rng, def: &mut Def) {
+    let defined: Vec<String> = def.subpats.iter().map(|(n, _)| n.clone()).collect();
+    let name = match (rng.below(4), defined.first()) {
+        (0, Some(d)) => format!("{d}x"),
+        (1, Some(d)) => d.to_uppercase() + "_",
+        (2, Some(d)) if d.len() > 1 => d[..d.len() - 1].to_string(),
+        _ => rng.pick_str(&["nope", "undefined_name", "a", "x1", "Z"]).to_string(),
+    };
+    let name = if defined.contains(&name) { "never_defined".to_string() } else { name };
+    let text = match rng.below(7) {
+        0 => format!("(?&{name})x"),
+        1 => format!("x(?&{name})"),
+        2 => format!("a(?&{name})b"),
+        3 => format!("(?&{name})+"),
+        4 => format!("q|(?&{name})"),
+        5 => format!("(?&{name})"),
+        _ => format!("[0-9](?&{name})?z"),
+    };
+    match rng.below(6) {
+        0 | 1 => {
+            def.push(Pat::regex(&text, 0));
+        }
+        2 => {
+            def.push(Pat::skip(&text));
+        }
+        3 => {
+            def.push(Pat::skip(&text).prio(40 + rng.below(9)));
+        }
+        4 => {
+            let mut p = Pat::new(if rng.chance(1, 2) { PatKind::Regex } else { PatKind::Skip }, Lit::b(text.as_bytes()), 0);
+            p.priority = Some(50 + rng.below(9));
+            def.push(p);
+        }
+        _ => {
+            // inside the body of a (used) subpattern
+            def.subpats.push(("holder".into(), Lit::s(&text)));
+            def.push(Pat::regex("=(?&holder)", 0).prio(60 + rng.below(9)));
+        }
+    }
+    if !def.pats.iter().any(|p| p.kind == PatKind::Token) {
+        def.push(Pat::token("zz", 0));
+    }
 }
 
 /// Hostile literal alphabet for C10.
@@ -794,7 +846,9 @@ pub fn f8_reject(rng: &mut Rng, name: &str) -> (Def, &'static str) {
             if rng.chance(1, 2) {
                 // every dot flavour (flags s, R, -u; byte-string literals) x quantifier x context x position
                 let (dot, bytes_only) = *rng.pick(&[(".", false), ("(?s:.)", false), ("(?R:.)", false), ("(?sR:.)", false), ("[^\\n]", false),
-                    ("(?-u:.)", true), ("(?s-u:.)", true), ("(?R-u:.)", true), ("(?sR-u:.)", true)]);
+                    ("(?-u:.)", true), ("(?s-u:.)", true), ("(?R-u:.)", true), ("(?sR-u:.)", true),
+                    // a capture group around the dot does not change what is repeated
+                    ("(.)", false), ("(?P<d>.)", false), ("((?s:.))", false), ("(?<d>[^\\n])", false), ("(?:(.))", false), ("(?-u:(.))", true)]);
                 let quant = rng.pick_str(&["*", "+", "{2,}", "{0,}", "{1,}"]);
                 let ctx = rng.pick_str(&["{D}", "a{D}", "({D})", "a|{D}", "x({D})y", "(a{D})+", "({D}a){2}", "a(b|c{D})", "(?:{D})?z"]);
                 let as_bytes_literal = rng.chance(1, 4);
@@ -845,7 +899,11 @@ pub fn f8_reject(rng: &mut Rng, name: &str) -> (Def, &'static str) {
             cat = "unsupported";
         }
         4 => {
-            def.push(Pat::regex("(?&undefined_name)a", 0));
+            if rng.chance(1, 2) {
+                def.subpats.push(("word".into(), Lit::s("[a-z]+")));
+                def.push(Pat::regex("(?&word)", 0).prio(3));
+            }
+            push_undefined_reference(rng, &mut def);
             cat = "undefined-subpattern";
         }
         5 => {
@@ -1091,6 +1149,38 @@ pub fn f7_curated() -> Vec<Def> {
     mk(true, vec![Pat::regex("(ab)*c", 0), Pat::regex("(ab)*d", 0)]);
     mk(true, vec![Pat::regex("a*b", 0)]);
     mk(false, vec![Pat::regex("[a-c]*x", 0), Pat::regex("[a-c]*yz", 0)]);
+    // ... with a jump-table state (three or more edges) that has an edge back into the start state, and with an
+    // accepting state on the cycle (the attempt can die in the re-entered start state after a match was recorded)
+    mk(true, vec![Pat::regex("(ab)*c", 0), Pat::regex("(ab)*ad", 0), Pat::regex("(ab)*ae", 0)]);
+    mk(false, vec![Pat::regex("(ab)*c", 0), Pat::regex("(ab)*ad", 0), Pat::regex("(ab)*ae", 0), Pat::regex("(ab)*af", 0)]);
+    mk(true, vec![Pat::regex("(ab)*a", 0), Pat::regex("(ab)*c", 0)]);
+    mk(false, vec![Pat::regex("(ab)*a", 0), Pat::regex("(ab)*c", 0), Pat::skip(" ")]);
+    mk(true, vec![Pat::regex("(xyz)*x", 0), Pat::regex("(xyz)*xy", 0), Pat::regex("(xyz)*w", 0)]);
+    mk(true, vec![Pat::regex("([0-9]x)*[0-9]", 0), Pat::regex("([0-9]x)*[0-9]y", 0), Pat::regex("([0-9]x)*[0-9]z", 0), Pat::regex("([0-9]x)*;", 0)]);
+    // more than 64 (and more than 128) patterns: leaf numbers beyond one machine word
+    for (utf8, n) in [(true, 70usize), (false, 135usize)] {
+        let mut pats = vec![Pat::regex("[a-z]+", 0)];
+        for k in 0..n {
+            let w: String = [(b'a' + (k / 26) as u8) as char, (b'a' + (k % 26) as u8) as char].iter().collect();
+            pats.push(Pat::token(&w, 0));
+        }
+        mk(utf8, pats);
+    }
+    // ASCII-only classes that contain DEL (0x7F) or NUL next to the non-ASCII range, tested outside a loop in a state
+    // with one or two edges (look-up-table test, never a fast loop), next to multi-byte input
+    mk(true, vec![Pat::regex("[\\x00-\\x08\\x0E-\\x1F\\x7F]", 0), Pat::regex("[a-z]+", 0)]);
+    mk(true, vec![Pat::regex("x[\\x00-\\x08\\x0E-\\x1F\\x7F]", 0), Pat::regex("[a-zé]+", 0).prio(1)]);
+    mk(true, vec![Pat::regex("[!#%\\x7F]y?", 0), Pat::regex("[acegi\\x7F]z", 0), Pat::regex("é+", 0)]);
+    mk(false, vec![Pat::regex("[\\x01-\\x08\\x0E-\\x1F\\x7F]", 0), Pat::regex("(?-u:[\\x80-\\xFF])+", 0)]);
+    mk(true, vec![Pat::regex("[\\x00\\x10\\x20\\x30\\x7E]k", 0), Pat::regex("[\\x7F\\x10\\x21\\x31]q", 0), Pat::regex("\\p{Greek}+", 0)]);
+    // loops over negated classes that exclude single non-ASCII characters (every lead byte has an edge, but not every
+    // continuation byte leads back into the loop)
+    mk(true, vec![Pat::regex("\"[^\"\u{e9}]*\"", 0), Pat::regex("[a-z]+", 0)]);
+    mk(true, vec![Pat::regex("[^\"\\\\\\n\u{2028}\u{2029}]+", 0), Pat::token("\"", 0)]);
+    mk(true, vec![Pat::regex("[^ \u{e9}\u{20ac}\u{1F600}]+", 0), Pat::skip(" ")]);
+    mk(true, vec![Pat::regex("\\S+", 0), Pat::skip("\\s+")]);
+    mk(true, vec![Pat::regex("[^\\p{Greek} ]+", 0), Pat::regex("\\p{Greek}", 0), Pat::skip(" ")]);
+    mk(true, vec![Pat::regex("#[^\\n\u{85}\u{2028}]*", 0).greedy(true), Pat::regex("[a-z]+", 0)]);
     // anchored variant of a text next to its unanchored variant
     mk(true, vec![Pat::token("end", 0), Pat::regex("end$", 0).prio(10), Pat::token(";", 0)]);
     mk(true, vec![Pat::regex("ab(?-u:\\b)", 0), Pat::regex("ab(?-u:\\w)+!", 0)]);
